@@ -169,6 +169,8 @@ func (e *BinaryOpExpr) execEqualBatch(chunk []KVPair, not bool, ctx *ExecuteCtx)
 		isStr  = false
 		isInt  = false
 		isBool = false
+		// Float numbers compare by value
+		isFloat = false
 	)
 	if len(chunk) == 0 {
 		return nil, nil
@@ -181,6 +183,8 @@ func (e *BinaryOpExpr) execEqualBatch(chunk []KVPair, not bool, ctx *ExecuteCtx)
 		isInt = true
 	case bool:
 		isBool = true
+	case float32, float64:
+		isFloat = true
 	default:
 		return nil, NewExecuteError(e.GetPos(), "= operator left expression has wrong type")
 	}
@@ -202,13 +206,26 @@ func (e *BinaryOpExpr) execEqualBatch(chunk []KVPair, not bool, ctx *ExecuteCtx)
 			left, lok := convertToInt(rleft[i])
 			right, rok := convertToInt(rright[i])
 			if !lok || !rok {
-				return nil, NewExecuteError(e.GetPos(), "= operator left or right expression has wrong type")
+				// An integer compared with a float
+				eq, err := execNumberCompare(rleft[i], rright[i], "=")
+				if err != nil {
+					return nil, NewExecuteError(e.GetPos(), "= operator left or right expression has wrong type")
+				}
+				rleft[i] = eq != not
+				continue
 			}
 			if not {
 				rleft[i] = left != right
 			} else {
 				rleft[i] = left == right
 			}
+		}
+		if isFloat {
+			eq, err := execNumberCompare(rleft[i], rright[i], "=")
+			if err != nil {
+				return nil, NewExecuteError(e.GetPos(), "= operator left or right expression has wrong type")
+			}
+			rleft[i] = eq != not
 		}
 		if isBool {
 			left, lok := rleft[i].(bool)
